@@ -221,6 +221,12 @@ def compute(prog, rep):
         rep.fail("C03.proj", f"{q}:store", fn.where(), why)
     if sample_t is not None:
         want = {("attr", SELF, "sample"), ("call", ("attr", ("attr", SELF, "model"), "draw_sample"), (("attr", SELF, "n"),), ())}
+        from vstat.terms import strip_conv as _sc
+        raw_sample_t = sample_t
+        sample_t = _sc(sample_t)        # np.asarray(sample): a DataFrame / list of rows is converted, the values are the sample's
+        rep.check(raw_sample_t != sample_t and raw_sample_t[0] == "call", "C03.proj", f"{q}:sample:array-like", fn.where(), "the sample is converted to an array before it is unpacked",
+                  "x, y = sample.T on the sample as supplied: the DataFrame returned by read_ec_benchmark_dataset (which fit and the plot functions accept) raises 'too many values to "
+                  "unpack', a list of rows has no .T; unpack np.asarray(sample).T")
         rep.check(set(alts(sample_t)) <= want and ("attr", SELF, "sample") in alts(sample_t), "C03.proj", f"{q}:sample", fn.where(),
                   "x, y are the columns of the supplied / drawn sample", f"the projected points must be the supplied sample or the one drawn from the model; found {show(sample_t)[:120]}")
     # angular step and grid
